@@ -606,3 +606,101 @@ T('C09', 'twin-tag-expr', PT, "        tag = 0x80 | (self._lenfmt << 6)\n       
 M('C02', 'hash-id', CO, "    SHA224 = 0x0B", "    SHA224 = 0x0C", 'C02.1')
 M('C02', 'pk-id', CO, "    EdDSA = 0x16  #", "    EdDSA = 0x17  #", 'C02.1')
 M('C12', 'ripemd-id', CO, "    RIPEMD160 = 0x03", "    RIPEMD160 = 0x04", 'C12.2')
+
+# =============================================================================================== C18 (hardening: value-based rules; twins from twins/C07-ref1, C16-ref4, C18-ref1..4 and further ones)
+_FP_BODY = ("        fp = hashlib.new('sha1')\n\n        plen = self.keymaterial.publen()\n        bcde_len = self.int_to_bytes(6 + plen, 2)\n")
+# --- C18.1
+T('C18', 'twin-fp-hashlib-sha1', PK, "        fp = hashlib.new('sha1')", "        fp = hashlib.sha1()")
+T('C18', 'twin-fp-len-commuted', PK, "        bcde_len = self.int_to_bytes(6 + plen, 2)", "        bcde_len = self.int_to_bytes(plen + 4 + 2, minlen=2)")
+T('C18', 'twin-fp-digest-temp', PK, "        return Fingerprint(fp.hexdigest().upper())", "        digest = fp.hexdigest()\n        text = digest.upper()\n        return Fingerprint(text)")
+T('C18', 'twin-fp-upper-left-to-class', PK, "        return Fingerprint(fp.hexdigest().upper())", "        return Fingerprint(fp.hexdigest())")
+T('C18', 'twin-fp-alg-octet-list', PK, "        fp.update(self.int_to_bytes(self.pkalg))\n        # e)", "        fp.update(bytearray([self.pkalg]))\n        # e)")
+T('C18', 'twin-fp-version-number', PK, "        fp.update(b'\\x04')\n", "        fp.update(bytearray([4]))\n")
+T('C18', 'twin-fp-time-temporaries', PK, "        fp.update(self.int_to_bytes(calendar.timegm(self.created.utctimetuple()), 4))",
+  "        when = self.created\n        tt = when.utctimetuple()\n        seconds = calendar.timegm(tt)\n        fp.update(self.int_to_bytes(seconds, 4))")
+T('C18', 'twin-fp-join-renamed', PK,
+  "        fp = hashlib.new('sha1')\n\n        plen = self.keymaterial.publen()\n        bcde_len = self.int_to_bytes(6 + plen, 2)\n\n        # a.1) 0x99 (1 octet)\n        # a.2) high-order length octet\n        # a.3) low-order length octet\n        fp.update(b'\\x99' + bcde_len[:1] + bcde_len[-1:])\n        # b) version number = 4 (1 octet);\n        fp.update(b'\\x04')\n        # c) timestamp of key creation (4 octets);\n        fp.update(self.int_to_bytes(calendar.timegm(self.created.utctimetuple()), 4))\n        # d) algorithm (1 octet): 17 = DSA (example);\n        fp.update(self.int_to_bytes(self.pkalg))\n        # e) Algorithm-specific fields.\n        fp.update(self.keymaterial.__bytearray__()[:plen])\n",
+  "        digest = hashlib.new('sha1')\n        material = self.keymaterial\n        publen = material.publen()\n        length_octets = self.int_to_bytes(6 + publen, 2)\n        hashed = b''.join([b'\\x99', length_octets[:1], length_octets[-1:], b'\\x04',\n                           self.int_to_bytes(calendar.timegm(self.created.utctimetuple()), 4),\n                           self.int_to_bytes(self.pkalg), material.__bytearray__()[:publen]])\n        digest.update(hashed)\n        fp = digest\n")
+M('C18', 'fp-length-octets-swapped', PK, "        fp.update(b'\\x99' + bcde_len[:1] + bcde_len[-1:])", "        fp.update(b'\\x99' + bcde_len[-1:] + bcde_len[:1])", 'C18.1')
+M('C18', 'fp-version-3', PK, "        fp.update(b'\\x04')\n", "        fp.update(b'\\x03')\n", 'C18.1')
+M('C18', 'fp-publen-whole-material', PK, "        plen = self.keymaterial.publen()", "        plen = len(self.keymaterial)", 'C18.1')
+M('C18', 'fp-hashlib-sha256', PK, "        fp = hashlib.new('sha1')", "        fp = hashlib.sha256()", 'C18.1')
+M('C18', 'fp-digest-of-other-hasher', PK, "        return Fingerprint(fp.hexdigest().upper())", "        return Fingerprint(hashlib.new('sha1', self.keymaterial.__bytearray__()).hexdigest().upper())", 'C18.1')
+M('C18', 'fp-time-temp-drops-offset', PK, "        fp.update(self.int_to_bytes(calendar.timegm(self.created.utctimetuple()), 4))",
+  "        tt = self.created.timetuple()\n        fp.update(self.int_to_bytes(calendar.timegm(tt), 4))", 'C18')
+M('C18', 'fp-time-of-now', PK, "        fp.update(self.int_to_bytes(calendar.timegm(self.created.utctimetuple()), 4))",
+  "        fp.update(self.int_to_bytes(calendar.timegm(datetime.now(timezone.utc).utctimetuple()), 4))", 'C18.1')
+# --- C18.2
+T('C18', 'twin-export-extend', PK, "        _bytes += self.int_to_bytes(self.pkalg)\n        _bytes += self.keymaterial.__bytearray__()\n        return _bytes\n\n    def __copy__(self):\n        pk = self.__class__()",
+  "        _bytes.extend(bytearray([self.pkalg]))\n        body = self.keymaterial.__bytearray__()\n        _bytes += body\n        return _bytes\n\n    def __copy__(self):\n        pk = self.__class__()")
+T('C18', 'twin-parse-absolute-offsets', PK, "        self.created = packet[:4]\n        del packet[:4]\n\n        self.pkalg = packet[0]\n        del packet[0]\n\n        # bound keymaterial to the remaining length of the packet\n        pend = self.header.length - 6\n        self.keymaterial.parse(packet[:pend])\n        del packet[:pend]",
+  "        self.created = packet[:4]\n        self.pkalg = packet[4]\n        nmaterial = self.header.length - 1 - 4 - 1\n        self.keymaterial.parse(packet[5:5 + nmaterial])\n        del packet[:5 + nmaterial]")
+T('C18', 'twin-parse-bound-inline', PK, "        pend = self.header.length - 6\n        self.keymaterial.parse(packet[:pend])\n        del packet[:pend]",
+  "        self.keymaterial.parse(packet[0:self.header.length - 6])\n        del packet[:self.header.length - 6]")
+T('C18', 'twin-versioned-header-append', PT, "        _bytes += bytearray([self.version])\n        return _bytes", "        _bytes.append(self.version)\n        return _bytes")
+M('C18', 'parse-material-bound-5', PK, "        pend = self.header.length - 6\n", "        pend = self.header.length - 5\n", 'C18.2')
+M('C18', 'parse-material-unbounded', PK, "        self.keymaterial.parse(packet[:pend])\n        del packet[:pend]", "        self.keymaterial.parse(packet)\n        del packet[:pend]", 'C18.2')
+M('C18', 'parse-algorithm-not-consumed', PK, "        self.pkalg = packet[0]\n        del packet[0]\n\n        # bound keymaterial", "        self.pkalg = packet[0]\n\n        # bound keymaterial", 'C18.2')
+M('C18', 'export-time-timestamp', PK, "        _bytes += self.int_to_bytes(calendar.timegm(self.created.utctimetuple()), 4)", "        _bytes += self.int_to_bytes(int(self.created.timestamp()), 4)", 'C18')
+M('C18', 'versioned-header-tag-octet', PT, "        _bytes += bytearray([self.version])\n        return _bytes", "        _bytes += bytearray([self.tag])\n        return _bytes", 'C18.2')
+# --- C18.3
+T('C18', 'twin-publen-temporaries-super', FL, "    def publen(self):\n        return super(PrivKey, self).__len__()",
+  "    def publen(self) -> int:\n        # the public fields come first\n        public_octets = super().__len__()\n        return public_octets",
+  more=[(FL, "    def publen(self):\n        return len(self)", "    def publen(self) -> int:\n        \"\"\"number of leading octets that hold the public fields\"\"\"\n        nbytes = len(self)\n        return nbytes"),
+        (FL, "    def publen(self):\n        return ECDHPub.__len__(self)", "    def publen(self) -> int:\n        public_octets = ECDHPub.__len__(self)\n        return public_octets"),
+        (FL, "    def __len__(self):\n        return sum(len(getattr(self, i)) for i in self.__pubfields__)", "    def __len__(self) -> int:\n        return sum(len(getattr(self, field)) for field in self.__pubfields__)")])
+T('C18', 'twin-publen-dunder-call', FL, "    def publen(self):\n        return len(self)", "    def publen(self):\n        return self.__len__()")
+T('C18', 'twin-ecdh-publen-spelt-out', FL, "    def publen(self):\n        return ECDHPub.__len__(self)", "    def publen(self):\n        return len(self.p) + len(self.kdf) + len(encoder.encode(self.oid.value)) - 1")
+M('C18', 'publen-off-by-one', FL, "    def publen(self):\n        return super(PrivKey, self).__len__()", "    def publen(self):\n        return super(PrivKey, self).__len__() + 1", 'C18.3')
+M('C18', 'ecdh-publen-of-ecdsa-sibling', FL, "    def publen(self):\n        return ECDHPub.__len__(self)", "    def publen(self):\n        return ECDSAPub.__len__(self)", 'C18.3')
+M('C18', 'publen-skips-mro', FL, "    def publen(self):\n        return super(PrivKey, self).__len__()", "    def publen(self):\n        return PubKey.__len__(self)", 'C18.3')
+# --- C18.4
+T('C18', 'twin-keyid-from-length', TY, "        return self[-16:]", "        return self[len(self) - 16:]")
+T('C18', 'twin-key-fingerprint-guard-clause', PGP, "        if self._key:\n            return self._key.fingerprint\n", "        pkt = self._key\n        if not pkt:\n            return None\n        return pkt.fingerprint\n")
+M('C18', 'shortid-high-bits', TY, "        return self[-8:]", "        return self[:8]", 'C18.4')
+M('C18', 'keyid-off-by-one', TY, "        return self[-16:]", "        return self[-16:-1]", 'C18.4')
+M('C18', 'key-fingerprint-of-primary', PGP, "        if self._key:\n            return self._key.fingerprint\n", "        if self._key:\n            return (self.parent or self)._key.fingerprint\n", 'C18.4')
+# --- C18.6 (shared family with C07.1)
+T('C18', 'twin-pubkey-renamed-merged-oid', PK,
+  "        pk = PubKeyV4() if not isinstance(self, PrivSubKeyV4) else PubSubKeyV4()\n        pk.created = self.created\n        pk.pkalg = self.pkalg\n\n        # copy over MPIs\n        for pm in self.keymaterial.__pubfields__:\n            setattr(pk.keymaterial, pm, copy.copy(getattr(self.keymaterial, pm)))\n\n        if self.pkalg in {PubKeyAlgorithm.ECDSA, PubKeyAlgorithm.EdDSA}:\n            pk.keymaterial.oid = self.keymaterial.oid\n\n        if self.pkalg == PubKeyAlgorithm.ECDH:\n            pk.keymaterial.oid = self.keymaterial.oid\n            pk.keymaterial.kdf = copy.copy(self.keymaterial.kdf)\n\n        pk.update_hlen()\n        return pk\n",
+  "        if isinstance(self, PrivSubKeyV4):\n            pub = PubSubKeyV4()\n        else:\n            pub = PubKeyV4()\n        pub.created = self.created\n        pub.pkalg = self.pkalg\n\n        secret_km = self.keymaterial\n        public_km = pub.keymaterial\n\n        for field in secret_km.__pubfields__:\n            setattr(public_km, field, copy.copy(getattr(secret_km, field)))\n\n        if self.pkalg in {PubKeyAlgorithm.ECDSA, PubKeyAlgorithm.EdDSA, PubKeyAlgorithm.ECDH}:\n            public_km.oid = secret_km.oid\n\n        if self.pkalg == PubKeyAlgorithm.ECDH:\n            public_km.kdf = copy.copy(secret_km.kdf)\n\n        pub.update_hlen()\n        return pub\n")
+T('C18', 'twin-pubkey-created-last', PK, "        pk.created = self.created\n        pk.pkalg = self.pkalg\n\n        # copy over MPIs\n        for pm in self.keymaterial.__pubfields__:\n            setattr(pk.keymaterial, pm, copy.copy(getattr(self.keymaterial, pm)))\n",
+  "        pk.pkalg = self.pkalg\n\n        # copy over MPIs\n        names = self.keymaterial.__pubfields__\n        for name in names:\n            value = copy.copy(getattr(self.keymaterial, name))\n            setattr(pk.keymaterial, name, value)\n        pk.created = self.created\n")
+M('C18', 'pubkey-loop-skips-first-field', PK, "        for pm in self.keymaterial.__pubfields__:\n            setattr(pk.keymaterial, pm, copy.copy(getattr(self.keymaterial, pm)))", "        for pm in self.keymaterial.__pubfields__[1:]:\n            setattr(pk.keymaterial, pm, copy.copy(getattr(self.keymaterial, pm)))", 'C18.6')
+M('C18', 'pubkey-loop-over-temp-privfields', PK, "        for pm in self.keymaterial.__pubfields__:\n            setattr(pk.keymaterial, pm, copy.copy(getattr(self.keymaterial, pm)))", "        km = self.keymaterial\n        for pm in km.__pubfields__ + km.__privfields__:\n            setattr(pk.keymaterial, pm, copy.copy(getattr(km, pm)))", 'C18.6')
+M('C18', 'pubkey-field-from-fresh-default', PK, "            setattr(pk.keymaterial, pm, copy.copy(getattr(self.keymaterial, pm)))", "            setattr(pk.keymaterial, pm, copy.copy(getattr(pk.keymaterial, pm)))", 'C18.6')
+M('C18', 'pubkey-ecdh-curve-not-copied', PK, "        if self.pkalg == PubKeyAlgorithm.ECDH:\n            pk.keymaterial.oid = self.keymaterial.oid\n", "        if self.pkalg == PubKeyAlgorithm.ECDH:\n", 'C18.6')
+M('C18', 'pubkey-merged-oid-loses-eddsa', PK, "        if self.pkalg in {PubKeyAlgorithm.ECDSA, PubKeyAlgorithm.EdDSA}:\n            pk.keymaterial.oid = self.keymaterial.oid\n\n        if self.pkalg == PubKeyAlgorithm.ECDH:\n            pk.keymaterial.oid = self.keymaterial.oid\n",
+  "        if self.pkalg in {PubKeyAlgorithm.ECDSA, PubKeyAlgorithm.ECDH}:\n            pk.keymaterial.oid = self.keymaterial.oid\n\n        if self.pkalg == PubKeyAlgorithm.ECDH:\n", 'C18.6')
+# --- C18.7 (shared family with C16.4)
+T('C18', 'twin-ids-temporaries-merged-ifs', PGP,
+  "        if prefs.pop('include_issuer_fingerprint', True):\n            if isinstance(self._key, PrivKeyV4):\n                sig._signature.subpackets.addnew('IssuerFingerprint', hashed=True, _version=4, _issuer_fpr=self.fingerprint)\n",
+  "        if prefs.pop('include_issuer_fingerprint', True) and isinstance(self._key, PrivKeyV4):\n            issuer_fpr = self.fingerprint\n            sig._signature.subpackets.addnew('IssuerFingerprint', hashed=True, _version=4, _issuer_fpr=issuer_fpr)\n",
+  more=[(PGP, "        pkesk.encrypter = bytearray(binascii.unhexlify(self.fingerprint.keyid.encode('latin-1')))", "        recipient_keyid = self.fingerprint.keyid\n        pkesk.encrypter = bytearray(binascii.unhexlify(recipient_keyid.encode('latin-1')))"),
+        (PGP, "        sig = PGPSignature()\n\n        if created is None:\n            created = datetime.now(timezone.utc)\n        sigpkt = SignatureV4()", "        if created is None:\n            created = datetime.now(timezone.utc)\n        sigpkt = SignatureV4()"),
+        (PGP, "            sigpkt.halg = halg\n\n        sig._signature = sigpkt", "            sigpkt.halg = halg\n\n        sig = PGPSignature()\n        sig._signature = sigpkt")])
+T('C18', 'twin-ids-keyword-arguments', PGP, "        sig = PGPSignature.new(SignatureType.DirectlyOnKey, self.key_algorithm, hash_algo, self.fingerprint.keyid, created=prefs.pop('created', None))",
+  "        own_id = self.fingerprint.keyid\n        sig = PGPSignature.new(SignatureType.DirectlyOnKey, halg=hash_algo, signer=own_id, pkalg=self.key_algorithm, created=prefs.pop('created', None))",
+  more=[(PGP, "addnew('IssuerFingerprint', hashed=True, _version=4, _issuer_fpr=self.fingerprint)", "addnew('IssuerFingerprint', True, _issuer_fpr=self.fingerprint, _version=4)"),
+        (PGP, "        _sig = self._key.sign(sigdata, getattr(hashes, sig.hash_algorithm.name)())", "        material = self._key\n        _sig = material.sign(sigdata, getattr(hashes, sig.hash_algorithm.name)())")])
+T('C18', 'twin-recipient-id-fromhex', PGP, "        pkesk.encrypter = bytearray(binascii.unhexlify(self.fingerprint.keyid.encode('latin-1')))\n        pkesk.pkalg = self.key_algorithm",
+  "        pkesk.pkalg = self.key_algorithm\n        pkesk.encrypter = bytearray(bytes.fromhex(self.fingerprint.keyid))")
+T('C18', 'twin-new-signature-packet-renamed', PGP, "        sigpkt.sigtype = sigtype\n        sigpkt.pubalg = pkalg\n\n        if halg is not None:\n            sigpkt.halg = halg\n\n        sig._signature = sigpkt\n        return sig",
+  "        sig._signature = sigpkt\n        packet = sig._signature\n        packet.pubalg = pkalg\n        packet.sigtype = sigtype\n\n        if halg is not None:\n            packet.halg = halg\n\n        return sig")
+M('C18', 'issuer-id-of-primary-in-bind', PGP, "            raise PGPError\n\n        sig = PGPSignature.new(sig_type, self.key_algorithm, hash_algo, self.fingerprint.keyid, created=prefs.pop('created', None))",
+  "            raise PGPError\n\n        signer = (key if key.is_primary else self).fingerprint.keyid\n        sig = PGPSignature.new(sig_type, self.key_algorithm, hash_algo, signer, created=prefs.pop('created', None))", 'C18.7')
+M('C18', 'issuer-keyword-other-key', PGP, "        sig = PGPSignature.new(SignatureType.DirectlyOnKey, self.key_algorithm, hash_algo, self.fingerprint.keyid, created=prefs.pop('created', None))",
+  "        sig = PGPSignature.new(SignatureType.DirectlyOnKey, self.key_algorithm, hash_algo, signer=revoker.fingerprint.keyid, created=prefs.pop('created', None))", 'C18.7')
+M('C18', 'new-issuer-not-recorded', PGP, "        sigpkt.subpackets.addnew('Issuer', _issuer=signer)\n", "", 'C18.7')
+M('C18', 'new-algorithm-only-if-hash-given', PGP, "        sigpkt.sigtype = sigtype\n        sigpkt.pubalg = pkalg\n\n        if halg is not None:\n            sigpkt.halg = halg\n", "        sigpkt.sigtype = sigtype\n\n        if halg is not None:\n            sigpkt.pubalg = pkalg\n            sigpkt.halg = halg\n", 'C18.7')
+M('C18', 'issuer-fpr-temp-from-parent', PGP, "                sig._signature.subpackets.addnew('IssuerFingerprint', hashed=True, _version=4, _issuer_fpr=self.fingerprint)",
+  "                owner = self if self.is_primary else self.parent\n                fpr = owner.fingerprint\n                sig._signature.subpackets.addnew('IssuerFingerprint', hashed=True, _version=4, _issuer_fpr=fpr)", 'C18.7')
+M('C18', 'issuer-fpr-version-5', PGP, "addnew('IssuerFingerprint', hashed=True, _version=4, _issuer_fpr=self.fingerprint)", "addnew('IssuerFingerprint', hashed=True, _version=5, _issuer_fpr=self.fingerprint)", 'C18.7')
+M('C18', 'sign-with-primary-material', PGP, "        _sig = self._key.sign(sigdata, getattr(hashes, sig.hash_algorithm.name)())", "        signing = (self.parent or self)._key\n        _sig = signing.sign(sigdata, getattr(hashes, sig.hash_algorithm.name)())", 'C18.7')
+M('C18', 'recipient-shortid', PGP, "        pkesk.encrypter = bytearray(binascii.unhexlify(self.fingerprint.keyid.encode('latin-1')))", "        pkesk.encrypter = bytearray(binascii.unhexlify(self.fingerprint.shortid.encode('latin-1')))", 'C18.7')
+M('C18', 'recipient-raw-ascii-id', PGP, "        pkesk.encrypter = bytearray(binascii.unhexlify(self.fingerprint.keyid.encode('latin-1')))", "        pkesk.encrypter = bytearray(self.fingerprint.keyid.encode('latin-1'))", 'C18.7')
+M('C18', 'session-key-to-primary-material', PGP, "        pkesk.encrypt_sk(self._key, cipher_algo, sessionkey)", "        target = self.parent._key if self.parent is not None else self._key\n        pkesk.encrypt_sk(target, cipher_algo, sessionkey)", 'C18.7')
+T('C18', 'twin-pubkey-class-via-local', PK, "        pk = PubKeyV4() if not isinstance(self, PrivSubKeyV4) else PubSubKeyV4()\n", "        klass = PubSubKeyV4 if isinstance(self, PrivSubKeyV4) else PubKeyV4\n        pk = klass()\n")
+M('C18', 'pubkey-class-via-local-keeps-private-subkey', PK, "        pk = PubKeyV4() if not isinstance(self, PrivSubKeyV4) else PubSubKeyV4()\n", "        klass = PrivSubKeyV4 if isinstance(self, PrivSubKeyV4) else PubKeyV4\n        pk = klass()\n", 'C18.6')
+T('C18', 'twin-keyid-of-plain-text', TY, "        return self[-16:]", "        return str(self)[-16:]",
+  more=[(PGP, "        if self._key:\n            return self._key.fingerprint\n", "        return self._key.fingerprint if self._key else None\n")])
